@@ -140,7 +140,14 @@ def _script_main():
             for pc, pcase, psteps in prior:
                 target.load_config(gen.CONFIGS[pc])
                 step_trace(e1.build(pcase), psteps)
-        target.load_config(gen.CONFIGS[req['cfgname']])
+        if req['with_prior'] and configurations.configs:
+            # an earlier user of the process changed configuration values in memory (never written to a file): a new instance created from a
+            # configuration file still gets exactly what the file says
+            for k, v in list(configurations.configs.items()):
+                if isinstance(v, bool):
+                    configurations.configs[k] = not v
+                elif k == 'arch_version':
+                    configurations.configs[k] = 4 if v >= 6 else 7
         out.append(step_trace(e1.build(case), req['j']))
     sys.__stdout__.write(json.dumps(out) + '\n')
     sys.__stdout__.flush()
@@ -156,7 +163,16 @@ def shard_fresh(cfgname, seed, count):
         for _ in range(rng.randrange(1, 3)):
             pc = rng.choice([c for c in CFGS if c != cfgname])
             prior.append([pc, program_case(rng, pc), rng.randrange(1, 6)])
-        script.append([prior, program_case(rng, cfgname)])
+        case = program_case(rng, cfgname)
+        if not (case['state']['cpsr'] & 0x20) and rng.random() < 0.5:
+            # the program starts by writing a mode number (also ones this configuration does not implement): whether that is accepted must not
+            # depend on which configurations other instances of the process had
+            r0 = (case['state']['cpsr'] & ~31 & 0xFFFFFFFF) | rng.choice((0b10110, 0b11010, 0b10001, 0b11011, 0b10111, 0b10110, 0b11010))
+            mode = gen.MODE_NAME[case['state']['cpsr'] & 31]
+            case['state'][gen.bank_key(0, mode)] = r0
+            code = bytes.fromhex(case['poke'][0][1])
+            case['poke'][0][1] = (e1.enc_arm(0xE121F000) + code[4:]).hex()          # MSR CPSR_c, r0
+        script.append([prior, case])
     want = run_script(cfgname, script, j, False)
     got = run_script(cfgname, script, j, True)
     for i, ((prior, case), w, g) in enumerate(zip(script, want, got)):
